@@ -310,8 +310,9 @@ def cfdp_inputs(kind, cfg, p, direction=None, conf=None):
         held += [("file_checksum", checksum), ("fault_location", fault)]
         return (lambda: L.EofPdu(conf, checksum, p["size"], fault, L.ConditionCode(p["cc"]))), held
     if kind == "FinishedPdu":
-        params = L.FinishedParams(L.ConditionCode(p["cc"]), L.DeliveryCode(p["dc"]), L.FileStatus(p["fs"]),
-                                  [U.build_response(r) for r in p.get("resps") or []], fl(p.get("fault")))
+        # "resps": None is passed through as None (the constructor documents it); an absent key means "no responses" = []
+        resps = None if ("resps" in p and p["resps"] is None) else [U.build_response(r) for r in p.get("resps") or []]
+        params = L.FinishedParams(L.ConditionCode(p["cc"]), L.DeliveryCode(p["dc"]), L.FileStatus(p["fs"]), resps, fl(p.get("fault")))
         held.append(("params", params))
         return (lambda: L.FinishedPdu(conf, params)), held
     if kind == "AckPdu":
@@ -384,15 +385,20 @@ class CfdpMachine(Machine):
         ctor, held = cfdp_inputs(self.kind, _cfg(model["cfg"]), model["p"], 1 - R.DIRECTION[self.kind])
         return ctor, held
 
+    @staticmethod
+    def _norm(p):
+        # an absent optional collection (None) is encoded and observed like an empty one
+        return dict(p, resps=[]) if ("resps" in p and p["resps"] is None) else p
+
     def ref(self, model):
-        return R.encode_pdu(self.kind, _cfg(model["cfg"]), model["p"])
+        return R.encode_pdu(self.kind, _cfg(model["cfg"]), self._norm(model["p"]))
 
     def decode(self, model, raw):
         return self.cls().unpack(raw)
 
     def decoded_ok(self, obj, model):
         cfg = _cfg(model["cfg"])
-        return self.unit.observe(obj) == self.unit._exp(cfg, model["p"])
+        return self.unit.observe(obj) == self.unit._exp(cfg, self._norm(model["p"]))
 
     def lenfield(self, raw, model):
         return R.data_field_len(raw), len(raw) - R.header_len(raw)
@@ -409,7 +415,9 @@ class CfdpMachine(Machine):
             base = {"checksum": b"\x12\x34\x56\x78", "size": big}
             return [dict(base, cc=6, fault=None), dict(base, cc=4, fault=b"\x31\x32"), dict(base, cc=0, fault=None)]
         if k == "FinishedPdu":
+            # "resps": None = FinishedParams(file_store_responses=None), the documented default (success_params())
             return [{"cc": 0, "dc": 0, "fs": 2, "resps": [], "fault": None},
+                    {"cc": 0, "dc": 0, "fs": 2, "resps": None, "fault": None},
                     {"cc": 6, "dc": 1, "fs": 1, "resps": [], "fault": None},
                     {"cc": 4, "dc": 1, "fs": 3, "resps": [dict(RESP_B)], "fault": b"\x31\x32"}]
         if k == "MetadataPdu":
@@ -1249,6 +1257,9 @@ def purity_cases(unit, tier):
                     if ba and unit not in ("EofPdu", "FileDataPdu"):
                         continue
                     out.append({"kind": "purity", "unit": unit, "tier": tier, "i": ri, "dir": direction, "ba": ba})
+                    # optional collections given as None instead of an empty list (both are documented inputs)
+                    if unit == "FinishedPdu" and not (U.norm(rcp)["params"].get("resps")):
+                        out.append({"kind": "purity", "unit": unit, "tier": tier, "i": ri, "dir": direction, "ba": ba, "none": 1})
     elif unit == "TransferFrame":
         for fam in ("UslpTransferFrameVar", "UslpTransferFrameFixed", "UslpTransferFrameTruncated"):
             for ri in range(len(UU.UNITS[fam].corpus(tier))):
@@ -1273,6 +1284,8 @@ def purity_inputs(case):
         p = dict(r["params"])
         if ba:
             p["data_ba"] = p["checksum_ba"] = True
+        if case.get("none") and unit == "FinishedPdu":
+            p["resps"] = None
         ctor, held = cfdp_inputs(unit, r["cfg"], p, case["dir"])
         return ctor, held, lambda o: o.pack()
     if unit == "TransferFrame":
